@@ -265,6 +265,8 @@ class C18(Property):
         spec, kind = case['spec'], case['kind']
         if re.match(r'^![rsab]', spec):
             return 'C18-F7'
+        if any(ch.isdecimal() and not ch.isascii() for ch in spec):
+            return 'C18-F9'
         f = spec_fields(spec)
         if f is None:
             return None
@@ -287,7 +289,7 @@ class C18(Property):
         return r if r in open_ids('C18') else None
 
     KINDS = {'C18-F7': ('accepts_invalid',), 'C18-F2': ('rejects_valid',), 'C18-F1': ('accepts_invalid', 'wrong_text'),
-             'C18-F3': ('wrong_text',), 'C18-F4': ('wrong_text',), 'C18-F5': ('wrong_text',), 'C18-F8': ('rejects_valid',)}
+             'C18-F3': ('wrong_text',), 'C18-F4': ('wrong_text',), 'C18-F5': ('wrong_text',), 'C18-F8': ('rejects_valid',), 'C18-F9': ('rejects_valid',)}
 
     def known(self, case, f, ctx):
         r = self.region(case)
